@@ -84,12 +84,16 @@ func ghostSegmentsOrdered(w *Writer) bool {
 //@   property C08 C17
 //@   panics when w.sealedFlag
 //@   requires w.activeBuffer != nil && seqNum >= w.latestSeqNum
+//@   requires{C17} len(key) < 4294967296 && len(value) < 4294967296
 //@   modifies w.latestSeqNum, bufferSegment.buf
+//@   modifies{C17} io.Writer.stream
 //@   ensures w.latestSeqNum == seqNum
 
 //@ func Writer.Delete
 //@   property C08 C17
 //@   panics when w.sealedFlag
 //@   requires w.activeBuffer != nil && seqNum >= w.latestSeqNum
+//@   requires{C17} len(key) < 4294967296
 //@   modifies w.latestSeqNum, bufferSegment.buf
+//@   modifies{C17} io.Writer.stream
 //@   ensures w.latestSeqNum == seqNum
